@@ -7,13 +7,13 @@ from .. import lib
 
 GUARD = r'<parking_lot::lock_api::MutexGuard<.*> as Deref(?:Mut)?>::deref(?:_mut)?'
 LABEL_OVER = 'the memtable is rotated while the previous immutable memtable has not been flushed yet (it is overwritten: its acknowledged writes are never written to a table and their log is removed)'
-LABEL_STUCK = 'a writer keeps waiting in make_room_for_write although the background work it waits for has finished (its wake-up condition is never re-evaluated)'
+LABEL_STUCK = 'a writer keeps waiting in make_room_for_write although the background work it waits for has finished or failed (its wake-up condition / the recorded background error is never re-evaluated)'
 
 
 def o9_3_make_room(mir, tier):
     """Environment: the level-0 file count, memtable fullness and the presence of an immutable memtable are free at entry; whenever
-    the writer waits on the condition variable, the background work completes before it wakes (no immutable memtable, level 0
-    empty).  Reference: the call returns within 6 loop iterations; Ok only with room in the (possibly new) memtable; a recorded
+    the writer waits on the condition variable, the background work either completes before it wakes (no immutable memtable,
+    level 0 empty) or fails (the failed state is recorded, nothing else changes).  Reference: the call returns within 6 loop iterations; Ok only with room in the (possibly new) memtable; a recorded
     background error is returned; the memtable is rotated at most once."""
     fn = mir.method('DB', 'make_room_for_write')
     res = Result('O9.3 DB::make_room_for_write leaves its wait loop', [fn.path], 'free level-0 count (0..2^20), memtable full or not, immutable memtable present or not, force flag, background error, WAL creation ok or failing; after every wait the background work is done')
@@ -37,9 +37,15 @@ def o9_3_make_room(mir, tier):
             P[r'<dyn MemTable as MemTable>::approximate_memory_usage'] = lambda se, env, pc, m: lib.one(env, If(st(env)['full'], bv(2000), bv(10)) if not isinstance(st(env)['full'], bool) else bv(2000 if st(env)['full'] else 10))
             P[r'DbOptions::max_memtable_size'] = lambda se, env, pc, o: lib.one(env, bv(1000))
             def wait(se, env, pc, cv, g):
-                s = upd(env, waits=st(env)['waits'] + 1, l0=bv(0))
-                e = env; gv = se.deref(e, Ref('$g')); gv = dict(gv); gv[mir.field('GuardedDbFields', 'maybe_immutable_memtable')] = Enum('None'); e['$g'] = gv
-                return [(None, (), s)]
+                # while the writer sleeps the background work either completes (immutable memtable flushed, level 0 drained) or
+                # fails (the error is recorded as the failed state, nothing else changes) - both end with a notify_all
+                n = st(env)['waits']
+                done = Bool('background_work_succeeds_%d' % n)
+                s_done = dict(st(env), waits=n + 1, l0=bv(0))
+                s_fail = dict(st(env), waits=n + 1, bg_failed=True)
+                gref = Ref('$g')
+                return [(done, (), s_done, [(Ref('$g', (mir.field('GuardedDbFields', 'maybe_immutable_memtable'),)), Enum('None'))]),
+                        (Not(done), (), s_fail, [(Ref('$g', (mir.field('GuardedDbFields', 'maybe_bad_database_state'),)), Enum('Some', (Enum('Write', ({'str': 'background'},), 'RainDBError'),)))])]
             P[r'(?:parking_lot::)?Condvar::wait'] = wait
             P[r'<Arc<parking_lot::Condvar> as Deref>::deref'] = lib.ident
             P[r'parking_lot::lock_api::MutexGuard::unlocked_fair'] = lambda se, env, pc, g, clo: lib.call_closure(se, env, pc, clo, [])
@@ -75,7 +81,7 @@ def o9_3_make_room(mir, tier):
             def k(ret, env, pc, has_imm=has_imm, bad_state=bad_state, ex=ex):
                 s = st(env); ok = isinstance(ret, Enum) and ret.tag == 'Ok'
                 posts = [('make_room_for_write returns Ok although a background error is recorded (or fails without one / without a failed WAL creation)',
-                          BoolVal(ok) == And(BoolVal(not bad_state), Or(BoolVal(s['wal_attempts'] == 0), wal_ok))),
+                          BoolVal(ok) == And(BoolVal(not (bad_state or s['bg_failed'])), Or(BoolVal(s['wal_attempts'] == 0), wal_ok))),
                          ('the memtable is rotated more than once for one write', BoolVal(s['rotations'] <= 1)),
                          (LABEL_OVER, BoolVal(not s['rotated_over_pending'])),
                          ('Ok is returned although the active memtable is full (or a forced flush did not rotate it)', Or(BoolVal(not ok), BoolVal(s['rotations'] == 1), And(Not(full), Not(force)))),
@@ -91,11 +97,13 @@ def o9_3_make_room(mir, tier):
                                            'confirmed_by': None if (rep or bad_ok) else {'reproduced': False, 'detail': 'no native scenario for this label'}})
             g = mir.mk_struct('GuardedDbFields', maybe_bad_database_state=Enum('Some', (Enum('Write', ({'str': 'bad'},), 'RainDBError'),)) if bad_state else Enum('None'),
                               maybe_immutable_memtable=Enum('Some', ({'abstract': True, '__ty': 'MemTable'},)) if has_imm else Enum('None'), version_set={'abstract': True, '__ty': 'VersionSet'})
-            env = {'$state': {'l0': l0, 'full': full, 'waits': 0, 'rotations': 0, 'scheduled': 0, 'l0_reads': 0, 'wal_attempts': 0, 'rotated_over_pending': False}, '$db': {'abstract': True, '__ty': 'DB'}, '$g': g, '$guard': Ref('$g')}
+            env = {'$state': {'l0': l0, 'full': full, 'waits': 0, 'rotations': 0, 'scheduled': 0, 'l0_reads': 0, 'wal_attempts': 0, 'rotated_over_pending': False, 'bg_failed': False}, '$db': {'abstract': True, '__ty': 'DB'}, '$g': g, '$guard': Ref('$g')}
             ex.top(fn, [Ref('$db'), Ref('$guard'), force], env, pre, k)
             if ex.bound_hits:
                 res.violations.append({'label': LABEL_STUCK, 'case': {'immutable_memtable': has_imm, 'bad_state': bad_state}, 'where': str(ex.bound_hits[0])[:200],
                                        'replay': ['l0_stop_release'], 'expect_hang': False})
+                res.violations.append({'label': LABEL_STUCK, 'case': {'immutable_memtable': has_imm, 'bad_state': bad_state}, 'where': str(ex.bound_hits[0])[:200],
+                                       'replay': ['parked_writer_flush_fails'], 'expect_hang': False})
                 ex.record_formula(LABEL_STUCK, [], BoolVal(True))
                 ex.bound_hits = []
             res.absorb(ex)
@@ -116,6 +124,10 @@ def o9_3_confirm(v, out):
     if v['replay'][0] == 'forced_flush_over_pending':
         if out.get('_rc') != 0: return (False, 'native run failed: %s' % out.get('_stderr', '')[-300:])
         return (out.get('lost', '0') != '0', 'a forced flush was requested while a rotated memtable was still waiting for its flush: %s of %s acknowledged keys are unreadable afterwards' % (out.get('lost'), out.get('written')))
+    if v['replay'][0] == 'parked_writer_flush_fails':
+        if out.get('_rc') != 0 and not out.get('_timeout'): return (False, 'native run failed: %s' % out.get('_stderr', '')[-300:])
+        stuck = out.get('writer') == 'stuck' or bool(out.get('_timeout'))
+        return (stuck and out.get('parked') == 'true', 'a writer waits for the flush of the previous memtable, the flush fails (fault hit: %s): writer parked=%s, afterwards: writer=%s' % (out.get('fault_hit'), out.get('parked'), out.get('writer')))
     if out.get('_rc') != 0 and not out.get('_timeout'): return (False, 'native run failed: %s' % out.get('_stderr', '')[-300:])
     stuck = out.get('writer') == 'stuck' or bool(out.get('_timeout'))
     return (stuck and out.get('parked') == 'true', 'level-0 files %s -> %s, writer parked=%s, after the compaction: writer=%s' % (out.get('level0_files'), out.get('level0_files_after'), out.get('parked'), out.get('writer')))
